@@ -315,6 +315,62 @@ type openReplay struct {
 	Detail   string        `json:"detail"`
 }
 
+// c09PartE: File.Close is called while a write transaction is open (and not committing). Close has to wait for
+// the writer; meanwhile the writer's goroutine starts a read transaction (a writer may need one before it
+// commits): Close waits for the writer, the writer for the reader - the reader must not wait for Close.
+func c09PartE(rep *Report, r *rand.Rand, n int) {
+	for i := 0; i < n; i++ {
+		cfg := engine.Config{PageSize: 1024, MaxSize: uint64(r.Intn(2)) * 256 * 1024, InitMetaArea: uint32(r.Intn(2) * 4)}
+		d := simdisk.New("close-while-writing")
+		f, err := txfile.VerifOpen(d, cfg.Options())
+		if err != nil {
+			continue
+		}
+		rep.Evaluations++
+		rep.count("E:close-while-a-writer-is-open", 1)
+		rep.nontrivial(fmt.Sprintf("E/%s/%d", cfg, i%3))
+		tx, err := f.Begin()
+		if err != nil {
+			f.Close()
+			continue
+		}
+		if p, err := tx.Alloc(); err == nil {
+			p.SetBytes(make([]byte, 1024))
+		}
+		closed := make(chan struct{})
+		go func() { f.Close(); close(closed) }()
+		time.Sleep(time.Duration(1+r.Intn(20)) * time.Millisecond)
+		var fails []string
+		if !watchdog(3*time.Second, func() {
+			if rd, err := f.BeginReadonly(); err == nil {
+				rd.Close()
+			}
+		}) {
+			s, p, rs := txfile.VerifLockState(f)
+			fails = append(fails, fmt.Sprintf("deadlock: File.Close waits for the open write transaction, a BeginReadonly issued meanwhile blocks although the writer is not committing; lock state (%s)", lkString(s, p, rs)))
+		}
+		switch i % 3 {
+		case 0:
+			tx.Rollback()
+		case 1:
+			tx.Commit()
+		default:
+			tx.Close()
+		}
+		select {
+		case <-closed:
+		case <-time.After(15 * time.Second):
+			fails = append(fails, "File.Close does not return after the write transaction has finished")
+		}
+		if len(fails) > 0 {
+			rep.violate(Violation{Kind: "oracle", Sig: "close-while-writing/" + failSig(fails[0]),
+				Detail: fails[0] + " on " + cfg.String(),
+				Replay: map[string]interface{}{"config": cfg, "scenario": "Begin; Alloc; go Close(); BeginReadonly; finish the writer", "failures": fails}})
+			return // blocked goroutines stay blocked
+		}
+	}
+}
+
 func c09PartC(rep *Report, r *rand.Rand, n int) {
 	for i := 0; i < n; i++ {
 		hseed := r.Int63()
@@ -649,7 +705,7 @@ func init() {
 		rep.Rule = "A: random scripts over the 8 operations of the bare lock object vs. the Coq lock_apply (state + would-block after every step); " +
 			"B: random API histories (write tx commit/rollback/close/failing commit, readers, reopen) - after every API call the sampled lock state equals the model state after the call's label program; every disk op of a commit samples pending+reserved; " +
 			"C: open-time option combinations (3 flag sets x 6 max sizes x prealloc) after prior histories, then BeginReadonly/Begin/Close under a watchdog; " +
-			"D: goroutine stress (race build) with N readers, M writers, final Close. Non-trivial: distinct lock-state traces / distinct op statistics / distinct option combos."
+			"E: File.Close called while a write transaction is open: a read transaction begun meanwhile must be admitted, Close returns when the writer is done; D: goroutine stress (race build) with N readers, M writers, final Close. Non-trivial: distinct lock-state traces / distinct op statistics / distinct option combos."
 		m, err := model.Start()
 		if err != nil {
 			fmt.Fprintln(os.Stderr, err)
@@ -671,6 +727,7 @@ func init() {
 		c09PartA(rep, m, r, nA)
 		c09PartB(rep, m, r, nB)
 		c09PartC(rep, r, nC)
+		c09PartE(rep, r, nC+4)
 		runStress(rep, r, nD)
 		rep.ModelCalls = m.N
 		return rep.finish(f)
